@@ -15,7 +15,8 @@ type verdict struct{ Key, What string }
 
 type ocall struct {
 	join                        bool
-	a                           int
+	a                           int // occupant address of its Channel
+	h                           int // its Channel
 	pushed, released, cancelled bool
 	returned                    bool
 	outcome                     string
@@ -29,7 +30,16 @@ func runOracle(tr []Label, cbPres, cbInv []int, died bool) []verdict {
 	var out []verdict
 	fail := func(k, w string) { out = append(out, verdict{k, w}) }
 	calls := map[int]*ocall{}
-	var tracked, member, everJoin, leaveErr [nAddr]bool
+	// per occupant address: tracked = a join was requested and no unavailable
+	// presence arrived since; reg = the Channel of the latest join request (the one
+	// the room's presence is for: last registration wins)
+	var tracked, everJoin [nAddr]bool
+	reg := [nAddr]int{-1, -1, -1, -1}
+	// per Channel: member = a join on it succeeded and the unavailable presence of
+	// its address has not arrived since; orphaned = that presence arrived while
+	// another Channel was the registered one (known finding)
+	member, leaveErr, orphaned := map[int]bool{}, map[int]bool{}, map[int]bool{}
+	chanAddr := map[int]int{}
 	availWhileTracked := [nAddr]int{}
 	badWhileTracked := [nAddr]int{}
 	kindOf := func(c *ocall) string {
@@ -45,11 +55,15 @@ func runOracle(tr []Label, cbPres, cbInv []int, died bool) []verdict {
 	}
 	for _, l := range tr {
 		switch l.T {
+		case "new":
+			chanAddr[l.H] = l.A
 		case "call":
-			c := &ocall{join: l.O == "join", a: l.A, intact: true}
+			c := &ocall{join: l.O == "join", a: l.A, h: l.H, intact: true}
 			calls[l.K] = c
+			chanAddr[l.H] = l.A
 			if c.join {
 				tracked[l.A], everJoin[l.A] = true, true
+				reg[l.A] = l.H
 			} else {
 				c.pushed = true
 			}
@@ -71,14 +85,23 @@ func runOracle(tr []Label, cbPres, cbInv []int, died bool) []verdict {
 				for _, c := range calls {
 					if c.join && c.a == l.A && !c.returned {
 						c.selfSeen = true
-						if c.pushed && c.intact && !c.cancelled && c.due == "" {
+						// the presence answers the latest request for the address: it is owed
+						// to the pending join of that Channel only
+						if c.h == reg[l.A] && c.pushed && c.intact && !c.cancelled && c.due == "" {
 							c.due = "self"
 						}
 						settle(c)
 					}
 				}
 			case "unavail":
-				member[l.A] = false
+				for h, a := range chanAddr {
+					if a == l.A && member[h] {
+						member[h] = false
+						if h != reg[l.A] {
+							orphaned[h] = true
+						}
+					}
+				}
 				for _, c := range calls {
 					if c.a != l.A || c.returned {
 						continue
@@ -91,12 +114,17 @@ func runOracle(tr []Label, cbPres, cbInv []int, died bool) []verdict {
 					} else if tracked[l.A] {
 						c.unavSeen = true
 						if !c.cancelled && c.due == "" {
-							c.due = "unavail"
+							if c.h == reg[l.A] {
+								c.due = "unavail"
+							} else {
+								c.due = "unavail-orphan"
+							}
 						}
 						settle(c)
 					}
 				}
 				tracked[l.A] = false
+				reg[l.A] = -1
 			case "bad":
 				// a presence whose payload does not decode. From an address no join
 				// was ever requested for it must be ignored like any other (checked
@@ -135,13 +163,13 @@ func runOracle(tr []Label, cbPres, cbInv []int, died bool) []verdict {
 					if !c.selfSeen {
 						fail("C18/join/success-without-self-presence", "Join returned nil although no available presence from the requested occupant address arrived after the call started")
 					}
-					member[c.a], leaveErr[c.a] = true, false
+					member[c.h], leaveErr[c.h], orphaned[c.h] = true, false, false
 				} else if !c.unavSeen {
 					fail("C18/leave/success-without-unavailable", "Leave returned nil although no unavailable presence for the occupant arrived after the call started")
 				}
 			case "stanzaerr":
 				if !c.join {
-					leaveErr[c.a] = true
+					leaveErr[c.h] = true
 				}
 				if !c.errSeen {
 					fail("C18/"+kindOf(c)+"/stanza-error-without-error-reply", "the call returned a stanza error although the room sent no error reply to its request")
@@ -154,13 +182,16 @@ func runOracle(tr []Label, cbPres, cbInv []int, died bool) []verdict {
 				fail("C18/"+kindOf(c)+"/unexpected-error", "the call returned an error that is neither the room's stanza error nor the context's error")
 			}
 		case "query":
-			if l.B && !member[l.A] {
-				fail("C18/joined/true-while-not-joined", fmt.Sprintf("Joined() is true for %s outside the window from a successful join to the unavailable presence", addrs[l.A]))
-			}
-			if !l.B && member[l.A] && leaveErr[l.A] {
-				fail("C18/joined/false-after-leave-error", fmt.Sprintf("Joined() is false for %s after Leave returned the room's error, although no unavailable presence for the occupant arrived (the room refused the departure)", addrs[l.A]))
-			} else if !l.B && member[l.A] {
-				fail("C18/joined/false-while-joined", fmt.Sprintf("Joined() is false for %s after a successful join and before any unavailable presence", addrs[l.A]))
+			who := fmt.Sprintf("channel %d (%s)", l.H, addrs[l.A])
+			switch {
+			case l.B && !member[l.H] && orphaned[l.H]:
+				fail("C18/joined/orphaned-channel-after-second-client-join", fmt.Sprintf("Joined() is still true for %s after the occupant's unavailable presence: it arrived while another Channel for the same address (there are several since a second Client.Join) was the registered one", who))
+			case l.B && !member[l.H]:
+				fail("C18/joined/true-while-not-joined", fmt.Sprintf("Joined() is true for %s outside the window from a successful join to the unavailable presence", who))
+			case !l.B && member[l.H] && leaveErr[l.H]:
+				fail("C18/joined/false-after-leave-error", fmt.Sprintf("Joined() is false for %s after Leave returned the room's error, although no unavailable presence for the occupant arrived (the room refused the departure)", who))
+			case !l.B && member[l.H]:
+				fail("C18/joined/false-while-joined", fmt.Sprintf("Joined() is false for %s after a successful join and before any unavailable presence", who))
 			}
 		}
 	}
@@ -177,6 +208,8 @@ func runOracle(tr []Label, cbPres, cbInv []int, died bool) []verdict {
 			switch c.owed {
 			case "self":
 				fail("C18/join/self-presence-ignored", fmt.Sprintf("call %d: the room's self-presence for the requested address arrived while the join was waiting, uncancelled, but Join did not return success", k))
+			case "unavail-orphan":
+				fail("C18/joined/orphaned-channel-after-second-client-join", fmt.Sprintf("call %d: Leave on a Channel that another Channel for the same address has replaced in the routing table was not told about the occupant's unavailable presence", k))
 			case "unavail":
 				fail("C18/leave/lost-depart-notification", fmt.Sprintf("call %d: the occupant's unavailable presence arrived after Leave had sent its request, but Leave did not return", k))
 			case "err":
